@@ -1057,7 +1057,25 @@ def check_card_text(ctx, F):
                 return False
             r = P.strip(sl[2][1])
             return r[0] == "agg" and r[1].endswith("Range::Range") and P.const_int(r[2][0]) == lo and P.const_int(r[2][1]) == hi
-        good = parsed_from(card[2][0], RANK, 0, 1) and parsed_from(card[2][1], SUIT, 1, 2)
+        def parsed_from_byte(t, parser_adt, k):
+            """(X::try_from(char::from(v.as_bytes()[k])) as Ok).0: the same character for an ASCII byte, and a non-ASCII byte
+            becomes a Latin-1 char that X's char table (C13.<x>-tables: every other char rejected) refuses"""
+            s = P.strip(P.narrow_deep(P.strip(t)))
+            if not (s[0] == "field" and s[1][0] == "variant" and s[1][2] == "Ok"):
+                return False
+            c = P.strip(s[1][1])
+            if not (c[0] == "call" and c[1] == f"<{parser_adt} as std::convert::TryFrom<char>>::try_from" and len(c[2]) == 1):
+                return False
+            ch = P.strip(c[2][0], calls=False)
+            if not (ch[0] == "call" and ch[1].endswith("From<u8> for char>::from") and len(ch[2]) == 1):
+                return False
+            by = P.strip(ch[2][0], calls=False)
+            if not (by[0] == "cindex" and by[2] == k):
+                return False
+            src = P.strip(by[1], calls=False)
+            return src[0] == "call" and src[1] == "core::str::<impl str>::as_bytes" and P.strip(src[2][0]) == ("param", 1)
+        good = (parsed_from(card[2][0], RANK, 0, 1) and parsed_from(card[2][1], SUIT, 1, 2)) or \
+            (parsed_from_byte(card[2][0], RANK, 0) and parsed_from_byte(card[2][1], SUIT, 1))
     # guarded by len == 2
     len_edges = []
     for b, lab, truth, term in I.bool_edges(fs, pr):
@@ -1068,6 +1086,11 @@ def check_card_text(ctx, F):
                 x, y = y, x
             if x[0] == "call" and x[1].rsplit("::", 1)[-1] == "len" and P.strip(x[2][0]) == ("param", 1) and P.const_int(y) == 2:
                 len_edges.append((b, lab))
+            # `match *v.as_bytes() { [a, b] => .. }`: the length of the byte slice is the length of the text
+            if x[0] == "un" and x[1] == "PtrMetadata" and P.const_int(y) == 2:
+                x2 = P.strip(x[2], calls=False)
+                if x2[0] == "call" and x2[1] == "core::str::<impl str>::as_bytes" and P.strip(x2[2][0]) == ("param", 1):
+                    len_edges.append((b, lab))
     good = good and bool(len_edges) and I.guarded_by(fs, ob, len_edges)
     if good:
         ctx.ok(rule, "FromStr: Ok(Card(rank(v[0..1]), suit(v[1..2]))) only under len == 2", sample=True)
